@@ -879,6 +879,19 @@ private:
       {
         try { c.listenerReady->set_value(false); } catch (...) {}
       }
+      // A Connect/Via pushed after the process() above was already answered ok(sid):
+      // the id must still receive its one terminal close notification.
+      if (c.t == CmdType::Connect || c.t == CmdType::Via)
+      {
+        decltype(_cbs.onClose) closeCb;
+        { std::lock_guard<std::mutex> g(_cbMutex); closeCb = _cbs.onClose; }
+        if (closeCb)
+        {
+          closeCb(c.t == CmdType::Connect ? c.c.sid : c.v.sid,
+                  TransportErrorInfo{TransportError::ShuttingDown,
+                                     "connect: transport shutting down"});
+        }
+      }
     }
     if (_epollFd >= 0)
     {
